@@ -557,9 +557,11 @@ pub struct Syn {
     pub file: Vec<u8>,
     /// the boundary glyphs of the font
     pub bounds: Vec<Bound>,
+    /// accented glyphs (the seac form of endchar) of a name-keyed CFF: (glyph, base glyph, accent glyph)
+    pub seac: Vec<(u16, u16, u16)>,
 }
 
-fn wrap(label: &str, kind: &str, table_tag: &str, table: Vec<u8>, n_glyphs: usize) -> Syn {
+pub fn wrap(label: &str, kind: &str, table_tag: &str, table: Vec<u8>, n_glyphs: usize) -> Syn {
     let nhm = (n_glyphs / 2).max(1);
     let long: Vec<(u16, i16)> = (0..nhm).map(|g| (400 + 3 * g as u16, g as i16 - 7)).collect();
     let lsbs: Vec<i16> = (nhm..n_glyphs).map(|g| g as i16 - 7).collect();
@@ -577,7 +579,7 @@ fn wrap(label: &str, kind: &str, table_tag: &str, table: Vec<u8>, n_glyphs: usiz
     ];
     let file = fontgen::build_sfnt(0x4F54544F, &tables);
     let t = Tables::from_sfnt(&file, 0).expect("own sfnt");
-    Syn { label: label.to_string(), kind: kind.to_string(), tables: t, file, bounds: Vec::new() }
+    Syn { label: label.to_string(), kind: kind.to_string(), tables: t, file, bounds: Vec::new(), seac: Vec::new() }
 }
 
 fn with_bounds(mut s: Syn, bounds: Vec<Bound>) -> Syn {
